@@ -108,6 +108,11 @@ func (e *Engine) VerifyFunction(fn *ssa.Function) (res *FuncResult) {
 		for _, r := range fr.rets {
 			retPCs = append(retPCs, r.st.pc)
 			fr.checkReturn(r, ct)
+			if len(ct.Ensures) > 0 {
+				if o := fx.oblige(r.st.clone(), "cover", "each-return-reachable", False, token.NoPos); o != nil {
+					o.Expect = "canary"
+				}
+			}
 		}
 		if len(ct.Ensures) > 0 && len(fr.rets) > 0 {
 			cs := entry.clone()
@@ -140,7 +145,7 @@ func (fr *Frame) checkReturn(r returnInfo, ct *FuncContract) {
 	bindResults(env, ct, fn, fn.Signature, r.vals)
 	// parameters refer to entry values (they are SSA parameters already)
 	for i, c := range ct.Ensures {
-		g, err := env.evalBool(c.Expr)
+		g, err := env.evalGoal(c.Expr)
 		if err != nil {
 			fx.unsupported = append(fx.unsupported, fmt.Sprintf("ensures %q: %v", c.Src, err))
 			continue
